@@ -144,7 +144,9 @@ func copyChart(c *chart.Chart) *chart.Chart {
 
 // processDependencyEnabled removes disabled charts from dependencies
 func processDependencyEnabled(c *chart.Chart, v map[string]interface{}, path string) error {
-	if c.Metadata.Dependencies == nil {
+	// A chart without requirements of its own can still carry subcharts (under charts/) whose
+	// requirements have to be processed, so only a chart without any subchart is done here.
+	if c.Metadata.Dependencies == nil && len(c.Dependencies()) == 0 {
 		return nil
 	}
 
